@@ -64,19 +64,37 @@ def mol_eq(a, b):
     return AND(c)
 
 
-def run_canon(backend, G, H):
+def content_token(G, H):
+    """what the expanded, canonical reaction SMILES determines: the mapped reaction, independent of the atom order in which
+    the graphs happen to be stored"""
+    def side(g):
+        return (tuple(sorted((d["atom_map"], d["element"], d["hcount"], d["charge"], d["aromatic"]) for _, d in g.nodes(data=True))),
+                tuple(sorted((min(g.nodes[u]["atom_map"], g.nodes[v]["atom_map"]), max(g.nodes[u]["atom_map"], g.nodes[v]["atom_map"]),
+                              d["order"]) for u, v, d in g.edges(data=True))))
+
+    return repr((side(G), side(H)))
+
+
+def run_canon(backend, G, H, inst=None):
+    """CanonRSMI.canonicalise with the RDKit boundary stubbed: expand_aam yields a string that determines the mapped reaction
+    (as the real expanded SMILES does), rsmi_to_graph hands back the graphs registered for that string."""
     from synkit.Chem.Reaction import canon_rsmi as cr
 
-    c = cr.CanonRSMI(backend=backend)
+    c = inst or cr.CanonRSMI(backend=backend)
+    if not hasattr(c, "_verif_registry"):
+        c._verif_registry = {}
+    reg = c._verif_registry
+    tok = content_token(G, H)
+    reg.setdefault(tok, (G, H))
     c.expand_aam = lambda rsmi: rsmi
     o1, o2 = cr.rsmi_to_graph, cr.graph_to_smi
-    cr.rsmi_to_graph = lambda rsmi, **kw: (G.copy(), H.copy())
+    cr.rsmi_to_graph = lambda rsmi, **kw: tuple(g.copy() for g in reg[rsmi])
     cr.graph_to_smi = lambda g, **kw: "<smiles>"
     try:
-        c.canonicalise("<stub>")
+        c.canonicalise(tok)
     finally:
         cr.rsmi_to_graph, cr.graph_to_smi = o1, o2
-    return c.canonical_reactant_graph, c.canonical_product_graph
+    return c.canonical_reactant_graph, c.canonical_product_graph, c
 
 
 def h_canon(E, n, backend, omax=2):
@@ -89,7 +107,7 @@ def h_canon(E, n, backend, omax=2):
     for g in (G, H):
         for v in g.nodes:
             g.nodes[v]["atom_map"] = v
-    R, P = run_canon(backend, G, H)
+    R, P, inst = run_canon(backend, G, H)
     info = dict(n=n, backend=backend, numbering=ids, canon_reactant_nodes=sorted(R.nodes), canon_product_nodes=sorted(P.nodes))
     its_in, its_out = its_of(G, H), its_of(R, P)
     E.check(NOT(its_iso_full(its_in, its_out)), "canonical-reaction-is-atom-map-equivalent-to-the-input", info)
@@ -101,8 +119,17 @@ def h_canon(E, n, backend, omax=2):
     E.check(sorted(R.nodes) != list(range(1, n + 1)) or any(R.nodes[v].get("atom_map") != v for v in R.nodes)
             or any(P.nodes[v].get("atom_map") != v for v in P.nodes), "atom-maps-are-1..N-and-synchronised", info)
     # fixed point
-    R2, P2 = run_canon(backend, R, P)
+    R2, P2, _ = run_canon(backend, R, P)
     E.check(OR(NOT(mol_eq(R, R2)), NOT(mol_eq(P, P2))), "canonical-form-is-a-fixed-point", info)
+    # the same canonicaliser object used again: for the same reaction stored in another atom order, and for another
+    # reaction with the same mapped reactants (product side = reactant side)
+    Gr = relabel(G, {v: v for v in G.nodes}, order=list(reversed(list(G.nodes))))
+    Hr = relabel(H, {v: v for v in H.nodes}, order=list(reversed(list(H.nodes))))
+    R4, P4, _ = run_canon(backend, Gr, Hr, inst)
+    E.check(NOT(its_iso_full(its_in, its_of(R4, P4))), "second-call-on-the-same-object-is-not-equivalent-to-its-input", info)
+    R5, P5, _ = run_canon(backend, G, G.copy(), inst)
+    E.check(NOT(its_iso_full(its_of(G, G), its_of(R5, P5))), "second-call-on-the-same-object-is-not-equivalent-to-its-input",
+            dict(info, variant="identity reaction on the same reactants"))
     # numbering independence when all reactant atoms are distinguishable by their labels
     labs = [(G0.nodes[v]["element"], G0.nodes[v]["hcount"], tuple(sorted(
         (G0.nodes[w]["element"], G0[v][w]["order"]) for w in G0.neighbors(v)))) for v in G0.nodes]
@@ -113,7 +140,7 @@ def h_canon(E, n, backend, omax=2):
         for g in (G3, H3):
             for v in g.nodes:
                 g.nodes[v]["atom_map"] = v
-        R3, P3 = run_canon(backend, G3, H3)
+        R3, P3, _ = run_canon(backend, G3, H3)
         E.check(OR(NOT(mol_eq(R, R3)), NOT(mol_eq(P, P3))), "output-depends-on-numbering-although-atoms-are-distinguishable", info)
     E.note(nontrivial=any(True for _ in its_in.edges))
     E.observe(sorted(R.nodes))
